@@ -286,6 +286,14 @@ def grid_quotient_is_rounded(ctx):
     c03.grid_quotient_is_rounded(ctx)
 
 
+@rule('C02.R9', min_instances=8)
+def rebuilt_datatype_has_the_same_numbers(ctx):
+    """shared with C03.R1c: the client converts wire values with a datatype REBUILT from the description - scale, limits
+    and resolutions in the datainfo are the node's property values themselves, not a formatted (shortened) rendering"""
+    from sa.rules import c03
+    c03.exported_property_values_are_exact(ctx)
+
+
 @rule('C02.R6', min_instances=5)
 def text_form_pairing(ctx):
     """to_string override => from_string override; containers propagate unit=False"""
@@ -314,6 +322,24 @@ def text_form_pairing(ctx):
             ctx.check(isinstance(a, ast.Name) and a.id == fp, f'{q}:identity text form is parsed unchanged', r, f'self({fp})',
                       f'to_string returns the string unchanged but from_string validates `{src(a) if a is not None else ""}`: a valid string with leading or '
                       'trailing white space does not map back to itself', fs)
+    # the caller hands the text over as it is: the text form of a top-level string IS the string, white space included
+    EDITS = {'strip', 'lstrip', 'rstrip', 'lower', 'upper', 'replace', 'split', 'splitlines', 'title', 'casefold', 'expandtabs'}
+    n = 0
+    for q, fi in sorted(m.functions.items()):
+        if not fi.module.name.startswith('frappy.client') or fi.module.name.startswith('frappy.client.interactive'):
+            continue
+        for c in calls_in(fi.node):
+            if call_attr(c) == 'from_string' and c.args and 'datatype' in src(c.func.value):
+                n += 1
+                ctx.analysed(fi)
+                a = resolved(c.args[0], fi.node)
+                ed = [x for x in ast.walk(a) if isinstance(x, ast.Call) and call_attr(x) in EDITS] + \
+                     [x for x in ast.walk(a) if isinstance(x, ast.Subscript) and isinstance(x.slice, ast.Slice)]
+                ctx.check(not ed, f'{fi.qualname}:text handed to from_string unchanged', c, f'from_string({src(c.args[0])})',
+                          f'`{src(c)}` edits the text (`{src(ed[0]) if ed else ""}`) before the datatype parses it: for a string / text parameter the text form '
+                          'is the value itself, so a value with leading or trailing white space (a text ending in a newline) is silently changed', fi)
+    if not n:
+        raise AnchorMissing('no datatype.from_string(...) call found in frappy.client')
     for cname in CONTAINERS:
         ci = _cls(m, cname)
         f = ci.methods.get('format_value')
